@@ -456,7 +456,8 @@ def c15_cases(tier):
 # ===========================================================================
 # C12 import
 
-ID_SCHEMES = ("seq", "gaps", "zero", "desc", "str", "strdesc", "float")
+ID_SCHEMES = ("seq", "gaps", "zero", "desc", "str", "strdesc", "float", "huge")
+INT_SCHEMES = ("seq", "gaps", "zero", "desc", "huge")
 
 
 def _ids(scheme, n):
@@ -475,6 +476,9 @@ def _ids(scheme, n):
         return [f"c{n - 1 - i}" for i in range(n)]
     if scheme == "float":
         return [float(i + 1) + 0.5 for i in range(n)]
+    if scheme == "huge":
+        # consecutive integers above 2**53: not representable as float64
+        return [2**53 + 1 + i for i in range(n)]
     raise ValueError(scheme)
 
 
@@ -501,13 +505,20 @@ def c12_table(seed, scheme, parent_enc, ndim, naming, extras, pos_order, malform
             # "sparse": the custom value is missing (NaN) on every second row
             r["score"] = None if (extras == "sparse" and i % 2 == 1) else 0.5 * i
             r["vec"] = f"[{i}, {i + 1}]"
+        if extras == "multi":
+            # an integer property spread over two columns (e.g. a timestamp in ns and a plate index)
+            r["ns0"] = 2**53 + 1 + 2 * i
+            r["ns1"] = i
         rows.append(r)
-    cols = ["time"] + axes + ["id", "parent_id"] + (["score", "vec"] if extras else [])
+    cols = ["time"] + axes + ["id", "parent_id"] + (["score", "vec"] if extras else []) + (["ns0", "ns1"] if extras == "multi" else [])
     if pos_order == "rev":
         cols = list(reversed(cols))  # column order of the table must not matter either
     df = pd.DataFrame(rows, columns=cols)
     if parent_enc == "nan" and scheme in ("seq", "gaps", "zero", "desc"):
         df["parent_id"] = df["parent_id"].astype("float")  # NaN for roots, like pd.read_csv does
+    if parent_enc == "nan" and scheme == "huge":
+        # float64 cannot hold those ids: a nullable integer column (pd.read_csv(dtype="Int64"))
+        df["parent_id"] = pd.array([pd.NA if r["parent_id"] is None else r["parent_id"] for r in rows], dtype="Int64")
     if parent_enc == "minus1-floattime":
         df["time"] = df["time"].astype("float")  # a time column that was parsed as float (1.0, 2.0)
     if parent_enc == "minus1-reindexed":
@@ -526,6 +537,8 @@ def c12_table(seed, scheme, parent_enc, ndim, naming, extras, pos_order, malform
         if extras:
             nmap["score"] = "score"
             nmap["vec"] = "vec"
+        if extras == "multi":
+            nmap["stamp2"] = ["ns0", "ns1"]
         for i, r in enumerate(rows):
             r["stamp"] = 100.5 + i
         expected = {"rows": rows, "ids": ids, "parent": parent, "order": order, "axes": axes}
@@ -541,6 +554,8 @@ def c12_table(seed, scheme, parent_enc, ndim, naming, extras, pos_order, malform
     if extras:
         nmap["score"] = R("score")
         nmap["vec"] = R("vec")
+    if extras == "multi":
+        nmap["stamp2"] = ["ns0", "ns1"]
     expected = {"rows": rows, "ids": ids, "parent": parent, "order": order, "axes": axes}
     if malformed == "dup-id" and len(nodes) >= 2:
         df.loc[row, R("id")] = df.loc[(row + 1) % len(nodes), R("id")]
@@ -589,7 +604,7 @@ def _c12_compare(tr, exp, scheme, case, cls, check):
     out = []
     g = tr.graph
     rows, ids, parent, order = exp["rows"], exp["ids"], exp["parent"], exp["order"]
-    integer = scheme in ("seq", "gaps", "zero", "desc")
+    integer = scheme in INT_SCHEMES
     # node for each row: by id (integer ids) or by unique position (renumbered ids)
     row_node = {}
     if integer:
@@ -632,6 +647,15 @@ def _c12_compare(tr, exp, scheme, case, cls, check):
             elif norm(got) != norm(r["score"]):
                 out.append(vio("C12", "custom-property", f"node {node}: score {tr.get_node_attr(node, 'score')} != {r['score']}", case, check, cls))
                 break
+            if "ns0" in r:
+                got2 = tr.get_node_attr(node, "stamp2")
+                try:
+                    same = [int(x) for x in got2] == [r["ns0"], r["ns1"]]
+                except (TypeError, ValueError):
+                    same = False
+                if not same:
+                    out.append(vio("C12", "custom-property", f"node {node}: stamp2 {got2!r} != columns ns0, ns1 = {[r['ns0'], r['ns1']]}", case, check, cls))
+                    break
             i = rows.index(r)
             # the source cell is the string "[i, j]"; the importer may keep it or parse it
             if norm(tr.get_node_attr(node, "vec")) not in (norm([i, i + 1]), norm(f"[{i}, {i + 1}]")):
@@ -662,6 +686,8 @@ def c12_cases(tier):
                                 if extras == "sparse" and (penc == "nan" or (q and naming == "id-renamed")):
                                     continue
                                 yield ("df", sj, scheme, penc, ndim, naming, extras, order, None, 0)
+                        if scheme in ("seq", "huge", "str") and ndim == 3 and naming in ("std", "renamed") and penc == "minus1":
+                            yield ("df", sj, scheme, penc, ndim, naming, "multi", "std", None, 0)
     small = list(worlds.forests(3, 3, 1))
     for seed in small:
         sj = worlds.seed_to_json(seed)
